@@ -76,6 +76,16 @@ func (sh *SearchHistory) Load() error {
 	}
 
 	err = json.Unmarshal(data, sh)
+
+	// The file content is untrusted: re-establish the size invariants whatever it said,
+	// so that a nonsensical max_size cannot make AddEntry slice out of range.
+	if sh.MaxSize <= 0 {
+		sh.MaxSize = 100
+	}
+	if len(sh.Entries) > sh.MaxSize {
+		sh.Entries = sh.Entries[len(sh.Entries)-sh.MaxSize:]
+	}
+
 	if err != nil {
 		return fmt.Errorf("failed to parse history file: %w", err)
 	}
